@@ -33,16 +33,21 @@ def finish(ctx):
 def plan(tier, seed):
     if tier == "quick":
         return ([{"n_cases": 260, "mode": "A", "hashseed": i % 2} for i in range(5)] +
-                [{"n_cases": 200, "mode": "B"}, {"n_cases": 90, "mode": "C"}, {"n_cases": 90, "mode": "C", "shard": 7}])
+                [{"n_cases": 200, "mode": "B"}, {"n_cases": 90, "mode": "C"}, {"n_cases": 90, "mode": "C", "shard": 7}] +
+                [{"n_cases": 13, "mode": "A", "params": {"sweep": 13 * i}, "hashseed": i} for i in range(2)])
     return ([{"n_cases": 4000, "mode": "A", "hashseed": i % 4} for i in range(10)] +
             [{"n_cases": 3000, "mode": "B", "hashseed": i} for i in range(3)] +
-            [{"n_cases": 700, "mode": "C", "hashseed": i} for i in range(3)])
+            [{"n_cases": 700, "mode": "C", "hashseed": i} for i in range(3)] +
+            [{"n_cases": 26, "mode": "A" if i % 2 == 0 else "B", "params": {"sweep": 13 * i}, "hashseed": i} for i in range(4)])
 
 
 def gen_case(rng, ctx):
-    if "C" not in ctx.mode and rng.random() < 0.03:
-        # sizes at which implementations switch strategy (63 .. 1025 elements), judged against the vectorised reference
+    if "sweep" in ctx.params or ("C" not in ctx.mode and rng.random() < 0.01):
+        # sizes at which implementations switch strategy (63 .. 1025 elements), judged against the vectorised reference;
+        # the sweep shards walk through every size of gen.THRESHOLD_SIZES
         n = rng.choice(gen.THRESHOLD_SIZES)
+        if "sweep" in ctx.params:
+            n = gen.THRESHOLD_SIZES[(ctx.index + ctx.params["sweep"]) % len(gen.THRESHOLD_SIZES)]
         ds, base = gen.large_dataset(rng, n)
         scls, sch = gen.scheme(rng, "S1 S1 S2 S3 S15")
         return {"ds": ds, "scheme": sch, "dcls": "large", "scls": scls, "n": n,
@@ -94,6 +99,7 @@ def check_large(case, ctx):
     dataset = libx.mk_dataset(ds)
     scheme = libx.mk_scheme(sch)
     ctx.count("class:large")
+    ctx.setadd("large_sizes", case["n"])
     inv = {i: e.value for e, i in dataset.mapping_elem_id.items()}
     elems = [inv[i] for i in range(len(inv))]
     want = refnp.cost_table(ds, sch, elems)
@@ -276,7 +282,10 @@ def reach(counters, tier, info):
         out.append({"name": f"... where the removal ({mut}) changed the rankings", "observed": v, "required": 25,
                     "ok": v >= 25})
     v = counters.get("large_tables_judged", 0)
-    out.append({"name": "tables over 63-1025 elements judged entirely (vectorised reference)", "observed": v, "required": 30,
-                "ok": v >= 30})
+    out.append({"name": "tables over 63-1025 elements judged entirely (vectorised reference)", "observed": v, "required": 40,
+                "ok": v >= 40})
+    v = len(set(info["sets"].get("large_sizes", ())) & set(gen.THRESHOLD_SIZES))
+    out.append({"name": "distinct sizes among gen.THRESHOLD_SIZES met", "observed": v, "required": len(gen.THRESHOLD_SIZES),
+                "ok": v >= len(gen.THRESHOLD_SIZES)})
     out += anchors.reach(info, [(FILES[0], 24, 96, "jitted triple loop (interpreted mode)")])
     return out
